@@ -4,7 +4,7 @@ from assemble import Item
 NAME = 'index'
 PRELUDE = ['base', 'bigint', 'float', 'rational', 'opaque']
 SPECS = ['index.rs']
-DEPS = ['nint', 'nnum', 'coretypes']
+DEPS = ['nint', 'nnum', 'coretypes', 'objctors']
 NEEDS_EXPANDED = True
 
 LEN_INV = ('slice_len_fits_isize', 'xs.len() <= isize::MAX')
@@ -85,8 +85,6 @@ ITEMS = [
         requires=[('index_in_bounds', 'i < s.len()')],
         props=['C10'],
     ),
-    Item(id='obj_u8', source='src/core.rs', locator='impl Obj / fn u8',
-         ensures=[('value', 'r == Obj::Num(NNum::Int(NInt::Small(n as i64)))')], props=['C10']),
     # per-kind element access: list, vector, bytes and string (by UTF-8 byte) all address through pythonic_index_isize
     Item(
         id='linear_index_isize', source='src/lib.rs', locator='fn linear_index_isize',
@@ -100,8 +98,6 @@ ITEMS = [
         ],
         props=['C10'],
     ),
-    Item(id='obj_list', source='src/core.rs', locator='impl Obj / fn list',
-         ensures=[('wraps', 'r is Seq && r->Seq_0 is List && r->Seq_0->List_0@ == n@')], props=['C10']),
     # slicing of every sequence kind goes through pythonic_slice_obj; the sub-slice taken afterwards can never be out of bounds
     Item(
         id='slice_seq', source='src/eval.rs', locator='fn slice_seq',
